@@ -112,8 +112,12 @@ def check_case(rec, case: dict) -> None:
     for t in case.get("queries", []):
         # a query for a non-negative tick of a chart that parsed has an answer: an exception here is a wrong answer, not a harness error
         try:
+            if (t + len(case["queries"])) % 3 == 0:
+                harness.distract(rec)
             ts, _ = be.timestamp_at_tick(t)
             model.check_time(dq, tm, t, us(ts), "direct query")
+            if t % 2:
+                harness.distract(rec)
             ts2 = be.timestamp_at_tick_no_optimize_return(t)
             model.check_time(dq, tm, t, us(ts2), "direct query")
         except Exception as e:  # noqa
